@@ -372,5 +372,7 @@ func init() {
 			c.emitScan(append(big(3000, 3001), xsens.NewMessage(0x30, nil)...), []int{1, 1, 1, 1, 1, 1, 1, 5000}, io.EOF, false)
 		}
 		c.clientStreams()
+		// commands too: what the client reports as its current message stays what the stream carried
+		c.commandCases("client", c.pick(30, 300))
 	}
 }
